@@ -189,7 +189,7 @@ theorem Eq'_le_of_le (x : ℚ) (N : Nat) (h : (N : ℚ) ≤ x) : Eq' x N ≤ ((N
     `expLoop_exit`, `N ≤ x` is impossible as long as `N + 1 ≤ 90002` -/
 theorem no_stop_before_peak (x S q ρ η : ℚ) (N : Nat) (hq0 : 0 < q) (hqS : q < S)
     (hSE : |S - Eq' x N| ≤ η * S) (hqt : |q - tq x N| ≤ η * q) (hstop : q ≤ 2 * ρ * S)
-    (hη0 : 0 ≤ η) (hη : η ≤ 1 / 10 ^ 12) (hρ0 : 0 < ρ) (hρ : ρ ≤ 5 / 10 ^ 6) (hN : N + 1 ≤ 90002)
+    (hη0 : 0 ≤ η) (hη : η ≤ 1 / 10 ^ 6) (hρ0 : 0 < ρ) (hρ : ρ ≤ 5 / 10 ^ 6) (hN : N + 1 ≤ 90002)
     (hle : (N : ℚ) ≤ x) : False := by
   have hS : 0 < S := lt_trans hq0 hqS
   have h1 := abs_le.mp hSE
@@ -202,19 +202,19 @@ theorem no_stop_before_peak (x S q ρ η : ℚ) (N : Nat) (hq0 : 0 < q) (hqS : q
   have h3 : S * (1 - η) ≤ ((N : ℚ) + 1) * ((1 + η) * q) := by
     have : ((N : ℚ) + 1) * tq x N ≤ ((N : ℚ) + 1) * ((1 + η) * q) := mul_le_mul_of_nonneg_left ht hN1.le
     linarith
-  have h4 : ((N : ℚ) + 1) * ((1 + η) * q) ≤ 90002 * ((1 + 1 / 10 ^ 12) * (2 * (5 / 10 ^ 6) * S)) := by
-    have a1 : (1 + η) * q ≤ (1 + 1 / 10 ^ 12) * (2 * (5 / 10 ^ 6) * S) := by
+  have h4 : ((N : ℚ) + 1) * ((1 + η) * q) ≤ 90002 * ((1 + 1 / 10 ^ 6) * (2 * (5 / 10 ^ 6) * S)) := by
+    have a1 : (1 + η) * q ≤ (1 + 1 / 10 ^ 6) * (2 * (5 / 10 ^ 6) * S) := by
       have : q ≤ 2 * (5 / 10 ^ 6) * S := by nlinarith
       exact mul_le_mul (by linarith) this hq0.le (by norm_num)
     exact mul_le_mul hNle a1 (by positivity) (by norm_num)
-  have h5 : S * (1 - 1 / 10 ^ 12) ≤ S * (1 - η) := by nlinarith
+  have h5 : S * (1 - 1 / 10 ^ 6) ≤ S * (1 - η) := by nlinarith
   nlinarith
 
 /-- pure real arithmetic: combining the loop's exit facts with a tail bound `e^x − E_N ≤ K·t_N` -/
 theorem series_combine (S q r E t ex ρ η K : ℝ) (hq0 : 0 < q) (hqS : q < S) (hSE : |S - E| ≤ η * S)
     (hqt : |q - t| ≤ η * q) (hstop : q ≤ 2 * ρ * S) (hr : |r - S| ≤ S * ρ) (h0 : 0 ≤ ex - E)
     (htail : ex - E ≤ K * t) (hK0 : 0 ≤ K) (hK : K ≤ 1000)
-    (hη0 : 0 ≤ η) (hη : η ≤ ρ / 10 ^ 12) (hρ0 : 0 < ρ) (hρ : ρ ≤ 5 / 10 ^ 6) :
+    (hη0 : 0 ≤ η) (hη : η ≤ ρ / 10 ^ 6) (hρ0 : 0 < ρ) (hρ : ρ ≤ 5 / 10 ^ 6) :
     |r - ex| ≤ (2 * K + 3) * ρ * r := by
   have hS : 0 < S := lt_trans hq0 hqS
   have h1 := abs_le.mp hSE
@@ -229,13 +229,13 @@ theorem series_combine (S q r E t ex ρ η K : ℝ) (hq0 : 0 < q) (hqS : q < S) 
   have hA0 : 0 < A := by rw [hA]; exact mul_pos hρ0 hS
   have hB0 : 0 ≤ B := by rw [hB]; exact mul_nonneg (mul_nonneg hη0 hρ0.le) hS.le
   have hC0 : 0 ≤ C := by rw [hC]; exact mul_nonneg (mul_nonneg hρ0.le hρ0.le) hS.le
-  have hηS : η * S ≤ A / 10 ^ 12 := by
+  have hηS : η * S ≤ A / 10 ^ 6 := by
     have := mul_le_mul_of_nonneg_right hη hS.le
     rw [hA]; linarith [this]
   have hCA : C ≤ 5 / 10 ^ 6 * A := by
     have := mul_le_mul_of_nonneg_right hρ hA0.le
     rw [hC]; rw [hA] at this; linarith [this]
-  have hBC : B ≤ C / 10 ^ 12 := by
+  have hBC : B ≤ C / 10 ^ 6 := by
     have := mul_le_mul_of_nonneg_right hη hA0.le
     rw [hB, hC]; rw [hA] at this; linarith [this]
   have hKt : K * t ≤ 2 * (K * A) + 2 * (K * B) := by
@@ -263,26 +263,50 @@ theorem series_combine (S q r E t ex ρ η K : ℝ) (hq0 : 0 < q) (hqS : q < S) 
 theorem expRho_pos (cfg : Config) : 0 < expRho cfg := by
   unfold expRho; exact mul_pos (by norm_num) (zpow_pos (by norm_num) _)
 
+/-- what the proofs need from the two literals of `exp_untrimmed` (regenerated from the source):
+    at least 5 guard digits, and term divisions at least 6 digits more precise than the trimmed sum -/
+theorem expGuard_ge : 5 ≤ expGuardDigits := by decide
+
+theorem expTermPrecision_ge (cfg : Config) (xd : Nat) :
+    cfg.precision + expGuardDigits + 6 ≤ expTermPrecision cfg xd := by
+  unfold expTermPrecision expGuardDigits; omega
+
 theorem expRho_le (cfg : Config) (hp : 1 ≤ cfg.precision) : expRho cfg ≤ 5 / 10 ^ 6 := by
-  unfold expRho expGuardDigits
-  have : (10 : ℚ) ^ (1 - ((cfg.precision + 5 : Nat) : Int)) ≤ (10 : ℚ) ^ (-5 : Int) :=
+  unfold expRho
+  have hg := expGuard_ge
+  have : (10 : ℚ) ^ (1 - ((cfg.precision + expGuardDigits : Nat) : Int)) ≤ (10 : ℚ) ^ (-5 : Int) :=
     zpow_le_zpow_right₀ (by norm_num) (by push_cast; omega)
   have e : (10 : ℚ) ^ (-5 : Int) = 1 / 10 ^ 5 := by norm_num
   rw [e] at this
   linarith
 
-theorem expEta_le (cfg : Config) (xd : Nat) : 0 ≤ expEta cfg xd ∧ expEta cfg xd ≤ expRho cfg / 10 ^ 12 := by
-  unfold expEta expRho expTermPrecision expGuardDigits
+/-- `ρ'·10^P ≤ ½·10^-4`: what 5 guard digits buy relative to the last of the `P` digits -/
+theorem expRho_mul_pow_le (cfg : Config) : expRho cfg * (10 : ℚ) ^ cfg.precision ≤ 1 / 2 / 10 ^ 4 := by
+  unfold expRho
+  have hg := expGuard_ge
+  rw [mul_assoc, ← zpow_natCast, ← zpow_add₀ (by norm_num)]
+  have : (10 : ℚ) ^ (1 - ((cfg.precision + expGuardDigits : Nat) : Int) + (cfg.precision : Int)) ≤ (10 : ℚ) ^ (-4 : Int) :=
+    zpow_le_zpow_right₀ (by norm_num) (by push_cast; omega)
+  have e : (10 : ℚ) ^ (-4 : Int) = 1 / 10 ^ 4 := by norm_num
+  rw [e] at this
+  linarith
+
+theorem expEta_le (cfg : Config) (xd : Nat) : 0 ≤ expEta cfg xd ∧ expEta cfg xd ≤ expRho cfg / 10 ^ 6 := by
+  unfold expEta expRho
   refine ⟨mul_nonneg (by norm_num) (zpow_nonneg (by norm_num) _), ?_⟩
-  have e : (1 : Int) - ((cfg.precision + 17 + xd : Nat) : Int) =
-      (1 - ((cfg.precision + 5 : Nat) : Int)) + (-((12 + xd : Nat) : Int)) := by push_cast; ring
+  have hT := expTermPrecision_ge cfg xd
+  obtain ⟨j, hj⟩ : ∃ j : Nat, expTermPrecision cfg xd = cfg.precision + expGuardDigits + 6 + j :=
+    ⟨expTermPrecision cfg xd - (cfg.precision + expGuardDigits + 6), by omega⟩
+  rw [hj]
+  have e : (1 : Int) - ((cfg.precision + expGuardDigits + 6 + j : Nat) : Int) =
+      (1 - ((cfg.precision + expGuardDigits : Nat) : Int)) + (-((6 + j : Nat) : Int)) := by push_cast; ring
   rw [e, zpow_add₀ (by norm_num)]
-  have h12 : (10 : ℚ) ^ (-((12 + xd : Nat) : Int)) ≤ 1 / 10 ^ 12 := by
-    have : (10 : ℚ) ^ (-((12 + xd : Nat) : Int)) ≤ (10 : ℚ) ^ (-12 : Int) :=
+  have h6 : (10 : ℚ) ^ (-((6 + j : Nat) : Int)) ≤ 1 / 10 ^ 6 := by
+    have : (10 : ℚ) ^ (-((6 + j : Nat) : Int)) ≤ (10 : ℚ) ^ (-6 : Int) :=
       zpow_le_zpow_right₀ (by norm_num) (by push_cast; omega)
-    have e2 : (10 : ℚ) ^ (-12 : Int) = 1 / 10 ^ 12 := by norm_num
+    have e2 : (10 : ℚ) ^ (-6 : Int) = 1 / 10 ^ 6 := by norm_num
     rw [e2] at this; exact this
-  have hpos : (0 : ℚ) < (10 : ℚ) ^ (1 - ((cfg.precision + 5 : Nat) : Int)) := zpow_pos (by norm_num) _
+  have hpos : (0 : ℚ) < (10 : ℚ) ^ (1 - ((cfg.precision + expGuardDigits : Nat) : Int)) := zpow_pos (by norm_num) _
   nlinarith
 
 theorem Eq'_cast (x : ℚ) (N : Nat) :
@@ -378,7 +402,7 @@ theorem expSeries_accuracy_bounded (cfg : Config) {est : Nat → Nat} (hest : Es
     by_contra hc
     push Not at hc
     exact no_stop_before_peak x.value S q (expRho cfg) (expEta cfg x.digits) N hq0 hqS hSE hqt hstop hη0
-      (by have : expRho cfg / 10 ^ 12 ≤ 1 / 10 ^ 12 := by
+      (by have : expRho cfg / 10 ^ 6 ≤ 1 / 10 ^ 6 := by
             rw [div_le_div_iff_of_pos_right (by positivity)]; linarith
           linarith) (expRho_pos cfg) hρle (by omega) hc
   have hprem : x.value ≤ x.value * ((N : ℚ) + 1 - x.value) := by nlinarith
@@ -420,11 +444,7 @@ theorem final_trim_accuracy (cfg : Config) {est : Nat → Nat} (hest : EstOK est
     unfold Dec.value
     have : (out.int : ℚ) ≤ (10 : ℚ) ^ cfg.precision := by exact_mod_cast h2
     exact mul_le_mul_of_nonneg_right this hU.le
-  have hρP : expRho cfg * (10 : ℚ) ^ cfg.precision = 1 / 2 / 10 ^ 4 := by
-    unfold expRho expGuardDigits
-    rw [mul_assoc, ← zpow_natCast, ← zpow_add₀ (by norm_num)]
-    have : (1 : Int) - ((cfg.precision + 5 : Nat) : Int) + (cfg.precision : Int) = -4 := by push_cast; ring
-    rw [this]; norm_num
+  have hρP := expRho_mul_pow_le cfg
   have hρle := expRho_le cfg hp
   have hρ0 := expRho_pos cfg
   -- r ≤ out + U/2
@@ -436,8 +456,8 @@ theorem final_trim_accuracy (cfg : Config) {est : Nat → Nat} (hest : EstOK est
       mul_le_mul_of_nonneg_left h4 hρ0.le
     have e : expRho cfg * (((10 : ℚ) ^ cfg.precision + 1 / 2) * (10 : ℚ) ^ (-out.scale)) =
         (expRho cfg * (10 : ℚ) ^ cfg.precision + expRho cfg / 2) * (10 : ℚ) ^ (-out.scale) := by ring
-    rw [e, hρP] at h5
-    have h6 : (1 / 2 / 10 ^ 4 + expRho cfg / 2) * (10 : ℚ) ^ (-out.scale) ≤
+    rw [e] at h5
+    have h6 : (expRho cfg * (10 : ℚ) ^ cfg.precision + expRho cfg / 2) * (10 : ℚ) ^ (-out.scale) ≤
         (1 / 2 / 10 ^ 4 + 5 / 10 ^ 6 / 2) * (10 : ℚ) ^ (-out.scale) :=
       mul_le_mul_of_nonneg_right (by linarith) hU.le
     have h7 : expRho cfg * r.value ≤ 21 / 400000 * (10 : ℚ) ^ (-out.scale) := by
@@ -533,13 +553,9 @@ theorem recip_trim_accuracy (cfg : Config) {est : Nat → Nat} (hest : EstOK est
     have h2 : ((expRho cfg : ℚ) : ℝ) ≤ ((5 / 10 ^ 6 : ℚ) : ℝ) := Rat.cast_le.mpr (expRho_le cfg hp)
     have e : ((5 / 10 ^ 6 : ℚ) : ℝ) = 5 / 10 ^ 6 := by norm_num
     rw [e] at h2; exact h2
-  have hρP : ((expRho cfg : ℚ) : ℝ) * (10 : ℝ) ^ cfg.precision = 1 / 2 / 10 ^ 4 := by
-    have : expRho cfg * (10 : ℚ) ^ cfg.precision = 1 / 2 / 10 ^ 4 := by
-      unfold expRho expGuardDigits
-      rw [mul_assoc, ← zpow_natCast, ← zpow_add₀ (by norm_num)]
-      have : (1 : Int) - ((cfg.precision + 5 : Nat) : Int) + (cfg.precision : Int) = -4 := by push_cast; ring
-      rw [this]; norm_num
-    have h' : ((expRho cfg * (10 : ℚ) ^ cfg.precision : ℚ) : ℝ) = ((1 / 2 / 10 ^ 4 : ℚ) : ℝ) := by rw [this]
+  have hρP : ((expRho cfg : ℚ) : ℝ) * (10 : ℝ) ^ cfg.precision ≤ 1 / 2 / 10 ^ 4 := by
+    have h' : ((expRho cfg * (10 : ℚ) ^ cfg.precision : ℚ) : ℝ) ≤ ((1 / 2 / 10 ^ 4 : ℚ) : ℝ) :=
+      Rat.cast_le.mpr (expRho_mul_pow_le cfg)
     push_cast at h'
     exact h'
   have hCr0 : (0 : ℝ) ≤ (C : ℝ) := by exact_mod_cast hC0
@@ -591,8 +607,8 @@ theorem recip_trim_accuracy (cfg : Config) {est : Nat → Nat} (hest : EstOK est
   have hρv : ρ * v ≤ 211 / 4000000 * U := by
     have h5 : ρ * v ≤ ρ * (((10 : ℝ) ^ cfg.precision + 11 / 20) * U) := mul_le_mul_of_nonneg_left hvU hρ0.le
     have e : ρ * (((10 : ℝ) ^ cfg.precision + 11 / 20) * U) = (ρ * (10 : ℝ) ^ cfg.precision + ρ * (11 / 20)) * U := by ring
-    rw [e, hρP] at h5
-    have h6 : (1 / 2 / 10 ^ 4 + ρ * (11 / 20)) * U ≤ (1 / 2 / 10 ^ 4 + 5 / 10 ^ 6 * (11 / 20)) * U :=
+    rw [e] at h5
+    have h6 : (ρ * (10 : ℝ) ^ cfg.precision + ρ * (11 / 20)) * U ≤ (1 / 2 / 10 ^ 4 + 5 / 10 ^ 6 * (11 / 20)) * U :=
       mul_le_mul_of_nonneg_right (by linarith) hU.le
     have e7 : ((1 : ℝ) / 2 / 10 ^ 4 + 5 / 10 ^ 6 * (11 / 20)) = 211 / 4000000 := by norm_num
     rw [e7] at h6
